@@ -72,6 +72,8 @@ class Watcher:
             V, U = b["W_skip_"], b["W1_"]
             scale = max(1.0, float(np.max(np.abs(V))), float(np.max(np.abs(U))))
             for g in gl:
+                if len(g) == 0:
+                    continue  # a group without features has nothing to shrink
                 if not np.any(V[g] != 0) and (np.any(U[g] != 0) or thr == 0):
                     continue  # outside the stated scope of the hierarchical operator
                 rb, rt, _, _ = prox_ref.hier_prox(V[g], U[g], thr, float(est.M))
@@ -88,6 +90,8 @@ class Watcher:
             W = b["W_"]
             scale = max(1.0, float(np.max(np.abs(W))))
             for g in gl:
+                if len(g) == 0:
+                    continue  # a group without features has nothing to shrink
                 ref = prox_ref.group_lasso_prox(W[g], thr)
                 if not np.allclose(est.W_[g], ref, rtol=0, atol=1e-9 * scale):
                     raise Violation(f"{self.label}: after an optimiser step the weights of feature(s) {g} are not the group-lasso "
